@@ -239,6 +239,7 @@ impl Sim for StoreSim {
             // C01: one run in eighty holds enough records for the periodic clean-up to apply (ranges and clean-ups are
             // part of those plans: a cleaned-up key is a removed key)
             ("C01", _) if rng.chance(1, 80) => (3000, rng.urange(1634, 1640)),
+            ("C02", _) if rng.chance(1, 80) => (3000, rng.urange(1638, 1642)),
             // C02: in a fifth of the runs the store can hold exactly as many records as the plan has keys, so a
             // restart can find it filled to capacity
             ("C02", _) if rng.chance(1, 5) => (n_keys, 0),
@@ -252,7 +253,24 @@ impl Sim for StoreSim {
             ("C02", Tier::Thorough) => u32::MAX,
             _ => 0,
         };
-        let mut steps = gen_steps(rng, ctx, n_keys, n_steps, kind, kind == "C01" && filler > 0);
+        // the clean-up threshold runs of C02 restart the full driver (Restart / Crash steps); copying 1600 files after
+        // every background task for the inner crash probes would take seconds per run
+        let probe_prefixes = if kind == "C02" && filler > 0 { 0 } else { probe_prefixes };
+        let mut steps = gen_steps(rng, ctx, n_keys, n_steps, kind, (kind == "C01" || kind == "C02") && filler > 0);
+        if kind == "C02" && filler > 0 {
+            // keys put once more (so that they are held), a range through the middle of the plan's keys, the clean-up,
+            // then a clean restart: what the clean-up removed stays removed
+            for key in 0..n_keys {
+                steps.push(Step::Put { key, val: 7000 + key as u32 });
+            }
+            steps.push(Step::Settle);
+            steps.push(Step::SetRange { rank: n_keys / 2, above: false });
+            steps.push(Step::Cleanup);
+            steps.push(Step::Restart);
+            for key in 0..n_keys {
+                steps.push(Step::Get { key });
+            }
+        }
         // C02, a tenth of the runs: the node is moved between networks (ids of one, two or three digits)
         let mut net0 = 0u8;
         if kind == "C02" && rng.chance(1, 10) {
